@@ -150,16 +150,17 @@ def concealStart (th : Nat) (ms : List Message) : List Message × Int :=
   let ri := recAt r.1 r.2
   (updStart sesPH ri (updStart lapPH ri r.1), r.2)
 
+/-- `if lastRecDist == basetype.Uint32Invalid { lastRecDist = d }` -/
+def nextLast (lastD d : Nat) : Nat := if lastD = uint32Invalid then d else lastD
+
 /-- backward scan of `concealEndPosition` over the REVERSED list (head = last message); `lastD` is
 `lastRecDist`. The index reported is the position in the original order = number of messages before it. -/
 def scanEndRev (th : Nat) : Nat → List Message → List Message × Int
   | _, [] => ([], -1)
   | lastD, m :: ms =>
     if isRecord m then
-      let d := dist m
-      let lastD' := if lastD = uint32Invalid then d else lastD
-      if (lastD' + 2 ^ 32 - d) % 2 ^ 32 < th then
-        let r := scanEndRev th lastD' ms
+      if (nextLast lastD (dist m) + 2 ^ 32 - dist m) % 2 ^ 32 < th then
+        let r := scanEndRev th (nextLast lastD (dist m)) ms
         (stripPos m :: r.1, r.2)
       else (m :: ms, (ms.length : Int))
     else
